@@ -3,16 +3,47 @@ import vlib
 
 TRUSTED = [
     "hand-written model coq/C15/RingModel.v of toolkit/buffer/ring.go, tied by differential runs (harness/cmd/c15ring) — not a translation",
-    "Go harness + generators + FIFO monitor (harness/cmd/c15ring, harness/vh), bin/check, lib/vlib.py",
-    "Go runtime, slices/copy semantics",
+    "hand-written model coq/C15/BacklogModel.v of toolkit/buffer/unbounded.go and toolkit/channels/unbounded_backlog.go (sequential use, "
+    "non-blocking receives), tied by differential runs on both implementations (harness/cmd/c15backlog)",
+    "hand-written machine coq/C15/LfqModel.v of toolkit/queues/lock_free.go (one step per atomic load/CAS), tied by per-step replay of "
+    "schedules executed on the instrumented CURRENT source (tie T2: lib/vlib.t2_build, harness/shim/{tsched,atomic}, harness/t2/c15lfq); "
+    "sync/atomic sequentially consistent; nodes never reused while referenced (GC) => no ABA",
+    "Go harnesses + generators + monitors (harness/cmd/c15*, harness/t2/c15*, harness/vh), bin/check, lib/vlib.py",
+    "Go runtime, slices/copy/channel semantics; the controlled scheduler explores interleavings of atomic operations, not compiler/CPU "
+    "reorderings below sync/atomic",
 ]
-HARNESSES = [{"pkg": "c15ring", "sub": "ring"}]
+HARNESSES = [{"pkg": "c15ring", "sub": "ring"}, {"pkg": "c15backlog", "sub": "backlog"}]
+T2 = [  # (sub, package, sources, template dir, monitor kind prefix)
+    ("lfq", "queues", ["toolkit/queues/lock_free.go"], "c15lfq", "lfq:"),
+]
+MANIFEST = {
+    "text": "TODO",
+    "note": "TODO",
+    "technique": "TODO",
+}
+
+
+def t2_parts(ctx):
+    for (sub, pkg, sources, tdir, kind) in T2:
+        b = vlib.t2_build(ctx, sub, pkg, sources, tdir)
+        vlib.run_harness(ctx, b, sub, kinds=[kind])
 
 
 def check(ctx):
     return vlib.standard_check(ctx, ["C15"], "C15/Properties.v", HARNESSES, TRUSTED, "DESIGN.md §6 C15",
-                               chk_modules=["MV.C15.Properties"])
+                               checker_extra="; instrument + build current toolkit/queues sources (t2_build) and replay their schedules in Coq",
+                               chk_modules=["MV.C15.Properties"], pre=t2_parts)
 
 
 def replay(ctx, path):
-    return vlib.standard_replay(ctx, {"ring": "c15ring"}, path)
+    import json
+    sub = json.load(open(path)).get("sub")
+    for (s, pkg, sources, tdir, kind) in T2:
+        if s == sub:
+            b = vlib.t2_build(ctx, s, pkg, sources, tdir)
+            rc, out, err, _ = vlib.sh([b, "-replay", path], timeout=600)
+            print(out.strip())
+            if err.strip():
+                print(err.strip())
+            return rc
+    return vlib.standard_replay(ctx, {h["sub"]: h["pkg"] for h in HARNESSES}, path)
